@@ -27,6 +27,9 @@ import armi.reactor.components.component as cmod
 import armi.utils.units as unitsmod
 from armi.materials import material as matmod
 from armi.reactor import assemblies, blocks, components, grids
+import armi.reactor.converters.axialExpansionChanger.axialExpansionChanger as aecmod
+import armi.reactor.converters.axialExpansionChanger.assemblyAxialLinkage as linkmod
+import armi.reactor.converters.axialExpansionChanger.expansionData as edmod
 from armi.reactor.converters.axialExpansionChanger.axialExpansionChanger import AxialExpansionChanger
 from armi.reactor.converters.axialExpansionChanger.expansionData import iterSolidComponents
 from armi.reactor.flags import Flags
@@ -40,7 +43,35 @@ shims.patch(cmod, np=shims.np_shim, float=shims.float_shim)
 shims.patch(unitsmod, float=shims.float_shim)
 
 STUBS = ["assemblies.np / blocks.np / composites.np / component.np -> object-array aware numpy shim",
-         "component.float / units.float -> identity on proxies"]
+         "component.float / units.float -> identity on proxies",
+         "paths are re-executions in one worker process: at the START of every path the module-level containers (lists, "
+         "dicts, sets) of the three modules of the axial expansion package are restored IN PLACE to their content at "
+         "import time (nothing is restored between the calls made within one path; that a call leaves them unchanged "
+         "is an obligation of every path)"]
+
+# module-level containers of the axial expansion package (e.g. the documented order of preference of the target flags):
+# configuration shared by every assembly the process handles, hence to be left alone by any call
+_AX_MODULES = (edmod, aecmod, linkmod)
+_PRISTINE = {(m, name): type(v)(v) for m in _AX_MODULES for name, v in vars(m).items()
+             if type(v) in (list, dict, set) and not name.startswith("__")}
+
+
+def fresh_module_state():
+    """Restore the module-level containers of the package in place (first statement of every harness: see STUBS)."""
+    for (m, name), v in _PRISTINE.items():
+        cur = getattr(m, name, None)
+        if type(cur) is not type(v):
+            setattr(m, name, type(v)(v))
+        elif cur != v:
+            cur.clear()
+            (cur.extend if isinstance(cur, list) else cur.update)(v)
+
+
+def module_state_untouched(ctx, tag):
+    for (m, name), v in _PRISTINE.items():
+        cur = getattr(m, name, None)
+        ctx.check("%s: module-level %s.%s still has its content of import time (shared by every assembly handled in the "
+                  "process)" % (tag, m.__name__.rsplit(".", 1)[-1], name), type(cur) is type(v) and cur == v)
 
 # The changer accepts blocks of height exactly 0: _checkBlockHeight only refuses heights < 0, while the property asks
 # for positive heights.  Candidate finding (boundary case).  Reproductions (found by the solver, plain floats):
@@ -123,6 +154,15 @@ KINDS = {
     # a fuel block that also holds shield rods: the fuel drives it, whether the changer is told to set the targets of
     # fuel blocks itself (setFuel=True) or to determine them like in any other block (setFuel=False)
     "fuelshield": lambda: _pins() + [_rods("shield", "HT9", 6.0, 1.2), _duct(), _gap()],
+    # a fuel block that also holds solids of a THREE-DIMENSIONAL shape (steel shield balls / cubes between the pins): their
+    # volume is their own, it does not follow the block height.  (Only one such block per assembly: with 3-D shapes of one
+    # type and multiplicity in two neighbouring blocks the linkage search itself fails with NotImplementedError, they have
+    # no getCircleInnerDiameter.)
+    "fuelspheres": lambda: _pins() + [components.Sphere("shield", "HT9", Tinput=25.0, Thot=450, od=1.0, id=0.0, mult=50.0),
+                                      _duct(), _gap()],
+    "fuelcubes": lambda: _pins() + [components.Cube("shield", "HT9", Tinput=25.0, Thot=450, lengthOuter=1.0, widthOuter=1.0,
+                                                    heightOuter=1.0, lengthInner=0.0, widthInner=0.0, heightInner=0.0,
+                                                    mult=50.0), _duct(), _gap()],
 }
 BLOCKTYPE = {"plate": "grid plate", "holed": "reflector", "plenum": "plenum", "aclp": "aclp", "ctrlshield": "control",
              "shieldctrl": "control", "shieldslug": "shield", "poisonslug": "control"}    # default: "fuel"
@@ -187,6 +227,10 @@ def footprint(c):
         return cls, 0.0, c.p.op
     if cls == "HexHoledCircle":
         return cls, c.p.holeOP, c.p.od
+    if cls == "Sphere":
+        return cls, c.p.id, c.p.od
+    if cls == "Cube":
+        return cls, c.p.lengthInner, c.p.lengthOuter
     raise AssertionError(cls)
 
 
@@ -208,9 +252,17 @@ def expected_lower(a, k, c):
     return cands[0] if cands else None
 
 
-def build(ctx, n, targets=None, tag="h", heights=None, struct=None):
+def build(ctx, n, targets=None, tag="h", heights=None, struct=None, share=None):
     """n blocks (kinds `struct`, default all "pin") + dummy; symbolic heights and one symbolic density per solid.
-    targets[k] names the component that drives block k ("fuel"/"auto": chosen by the changer itself)."""
+    targets[k] names the component that drives block k ("fuel"/"auto": chosen by the changer itself).
+    share: dict input name -> value; a second assembly built with the same dict gets the very same numbers."""
+    def real(name, lo, hi):
+        if share is None:
+            return ctx.real(name, lo, hi)
+        if name not in share:
+            share[name] = ctx.real(name, lo, hi)
+        return share[name]
+
     a = assemblies.HexAssembly("fuel")
     a.spatialGrid = grids.AxialGrid.fromNCells(n + 1)
     a.spatialGrid.armiObject = a
@@ -219,14 +271,14 @@ def build(ctx, n, targets=None, tag="h", heights=None, struct=None):
     a.add(mk_dummy())
     hs = []
     for k, b in enumerate(a):
-        h = ctx.real("%s%d" % (tag, k), HLO, HHI) if heights is None or heights[k] is None else heights[k]
+        h = real("%s%d" % (tag, k), HLO, HHI) if heights is None or heights[k] is None else heights[k]
         hs.append(h)
         b.p.height = h
         b.clearCache()
         for c in b:
             c.p.volume = None
             if c.name in NUC:
-                c.p.numberDensities = {NUC[c.name]: ctx.real("n%d_%s" % (k, vn(c)), 0.01, 10.0)}
+                c.p.numberDensities = {NUC[c.name]: real("n%d_%s" % (k, vn(c)), 0.01, 10.0)}
         if targets is not None and k < n and targets[k] not in ("fuel", "auto"):
             b.p.axialExpTargetComponent = targets[k]
     a.calculateZCoords()
@@ -279,6 +331,7 @@ def check_geometry(ctx, a, changer, before, tag, n, targets=None, tnames=None):
     """Obligations on heights, contiguity, grid and target-driven boundaries after one expansion.
     tnames: per block the name of the component that has to be the target (see expected_targets)."""
     H = before["total"]
+    module_state_untouched(ctx, tag)
     ctx.check_close("%s: total assembly height unchanged" % tag, a.getTotalHeight(), H, scale=H)
     ctx.check_close("%s: top of the assembly does not move" % tag, a[-1].p.ztop, before["top"], scale=H)
     ctx.check_close("%s: sum of block heights = top elevation" % tag, sum(b.getHeight() for b in a), a[-1].p.ztop,
@@ -366,7 +419,8 @@ def check_masses(ctx, a, changer, before, g, tag, n, canary=False):
                        "user-designated one (duct, slug); targets 'auto' = chosen by the changer; undesignated blocks "
                        "holding components of two kinds of the documented preference list fuel > control > poison > "
                        "shield > slug (absorber bundle + shield rods, shield pins + slugs, poison + slugs, fuel + "
-                       "shield rods with setFuel on/off): the first kind present has to drive the block",
+                       "shield rods with setFuel on/off): the first kind present has to drive the block; a fuel block "
+                       "that also holds solids of a three-dimensional shape (Sphere, Cube)",
          stubs=STUBS, qtimeout_ms=30000,
          instances={"quick": [dict(n=2, targets=("fuel", "fuel")), dict(n=3, targets=("fuel", "fuel", "fuel")),
                               dict(n=2, targets=("clad", "fuel")), dict(n=2, targets=("fuel", "clad")),
@@ -376,7 +430,8 @@ def check_masses(ctx, a, changer, before, g, tag, n, canary=False):
                               dict(n=2, targets=("auto",) * 2, struct=("pin", "cfuel")),
                               dict(n=2, targets=("auto",) * 2, struct=("pin", "holed")),
                               dict(n=2, targets=("duct",) * 2, struct=("aclp", "plenum")),
-                              dict(n=2, targets=("auto",) * 2, struct=("pin", "ctrlshield"))],
+                              dict(n=2, targets=("auto",) * 2, struct=("pin", "ctrlshield")),
+                              dict(n=2, targets=("auto",) * 2, struct=("pin", "fuelspheres"))],
                     "thorough": [dict(n=2, targets=("auto",) * 2, struct=("shieldslug", "shieldctrl")),
                                  dict(n=2, targets=("auto",) * 2, struct=("poisonslug", "ctrlshield")),
                                  dict(n=2, targets=("auto",) * 2, struct=("pin", "fuelshield"), setFuel=False),
@@ -391,8 +446,10 @@ def check_masses(ctx, a, changer, before, g, tag, n, canary=False):
                                  dict(n=3, targets=("auto",) * 3, struct=("plate", "pin", "pin")),
                                  dict(n=3, targets=("auto",) * 3, struct=("pin", "pin61", "pin")),
                                  dict(n=3, targets=("auto",) * 3, struct=("cfuel", "noclad", "cclad")),
-                                 dict(n=2, targets=("auto",) * 2, struct=("pin61", "pin"))]})
+                                 dict(n=2, targets=("auto",) * 2, struct=("pin61", "pin")),
+                                 dict(n=2, targets=("auto",) * 2, struct=("pin", "fuelcubes"))]})
 def prescribed_expansion_keeps_height_contiguity_and_target_mass(ctx, n, targets, struct=None, setFuel=True):
+    fresh_module_state()
     a, hs = build(ctx, n, targets, struct=struct)
     tnames = expected_targets(n, targets, struct)
     comps = solids(a)
@@ -438,6 +495,7 @@ def prescribed_expansion_keeps_height_contiguity_and_target_mass(ctx, n, targets
                                  dict(n=3, targets=("auto",) * 3, struct=("plate", "cfuel", "pin")),
                                  dict(n=3, targets=("auto",) * 3, struct=("pin", "pin61", "noclad"))]})
 def expansion_then_inverse_restores_the_assembly(ctx, n, targets, struct=None):
+    fresh_module_state()
     a, hs = build(ctx, n, targets, struct=struct)
     comps = solids(a)
     g = {c: ctx.real("g%d_%s" % (k, vn(c)), GLO, GHI) for k, b in enumerate(a[:-1]) for c in bsolids(b)}
@@ -491,6 +549,7 @@ def second_expansion_keeps_the_invariants(ctx, n, targets, struct=None, listed=N
     listed has no prescribed change in that step.  retarget: component name the user designates as target of every
     block between the two calls (None = designations unchanged).  detour: between the two calls the same changer expands
     another (concrete) assembly, as a driver looping over the core does.  One changer instance serves all calls."""
+    fresh_module_state()
     a, hs = build(ctx, n, targets, struct=struct)
     comps = solids(a)
     names = {c: "%d_%s" % (k, vn(c)) for k, b in enumerate(a[:-1]) for c in bsolids(b)}
@@ -531,6 +590,66 @@ def second_expansion_keeps_the_invariants(ctx, n, targets, struct=None, listed=N
                             scale=mid["total"])
 
 
+@harness("C12", bounds="TWO fresh assemblies with identical structure (block kinds `struct`, targets chosen by the changer "
+                       "where 'auto'), identical symbolic heights, densities and growth factors, expanded ONE AFTER THE "
+                       "OTHER in the same process (a changer of its own each, or one changer serving both: oneChanger), as "
+                       "a driver looping over the core does: the outcome of an expansion depends on the assembly and the "
+                       "prescribed growth only, so the second must end up exactly like the first (targets, block "
+                       "boundaries, densities, masses), and each obeys the documented target rule",
+         stubs=STUBS, qtimeout_ms=30000,
+         instances={"quick": [dict(n=2, targets=("auto",) * 2, struct=("ctrlshield", "plenum")),
+                              dict(n=2, targets=("auto",) * 2, struct=("fuelshield", "aclp"), setFuel=False, oneChanger=True)],
+                    "thorough": [dict(n=3, targets=("auto",) * 3, struct=("shieldslug", "pin", "plenum")),
+                                 dict(n=2, targets=("auto",) * 2, struct=("poisonslug", "aclp"), oneChanger=True),
+                                 dict(n=2, targets=("fuel", "clad")), dict(n=2, targets=("auto",) * 2, struct=("plate", "pin"))]})
+def identical_assemblies_expanded_in_turn_end_up_identical(ctx, n, targets, struct=None, setFuel=True, oneChanger=False):
+    fresh_module_state()
+    share = {}
+    first, hs = build(ctx, n, targets, struct=struct, share=share)
+    second, _ = build(ctx, n, targets, struct=struct, share=share)
+    tnames = expected_targets(n, targets, struct)
+    g = {}
+    for k, b in enumerate(first[:-1]):
+        for c, c2 in zip(bsolids(b), bsolids(second[k])):
+            g[c] = g[c2] = ctx.real("g%d_%s" % (k, vn(c)), GLO, GHI)
+    changer = AxialExpansionChanger(detailedAxialExpansion=True)
+    outcome = []
+    for which, a in (("first", first), ("second", second)):
+        if not oneChanger:
+            changer = AxialExpansionChanger(detailedAxialExpansion=True)
+        comps = solids(a)
+        before = snapshot(a)
+        raised = expand(changer, a, comps, [g[c] for c in comps], setFuel=setFuel)
+        module_state_untouched(ctx, "after the %s assembly" % which)
+        if not raised and not all_placed(ctx, a, which):
+            return
+        tn = [None if target_of(changer, b) is None else target_of(changer, b).name for b in a[:-1]]
+        if not raised:
+            for k, b in enumerate(a[:-1]):
+                ctx.check("%s assembly: block %d is driven by the component the documented rule names (%s)" % (
+                    which, k, tnames[k]), tn[k] == tnames[k] and b.p.axialExpTargetComponent == tnames[k])
+        outcome.append(dict(raised=raised, targets=tn, before=before, after=snapshot(a), a=a))
+    one, two = outcome
+    ctx.check("the second assembly is refused (ArithmeticError) iff the first one was", one["raised"] == two["raised"])
+    ctx.check("the same components drive the blocks of both assemblies", one["targets"] == two["targets"])
+    if one["raised"] or two["raised"]:
+        return
+    H = one["before"]["total"]
+    for k in range(n + 1):
+        got = two["after"]["h"][k]
+        if ctx.canary and k == n - 1:
+            got = got * ITE(AND(hs[0] > 399, hs[k] < 11), 1.001, 1)
+        ctx.check_close("block %d of the second assembly ends up as high as in the first" % k, got, one["after"]["h"][k],
+                        scale=H)
+        ctx.check_close("block %d of the second assembly ends at the same elevation as in the first" % k,
+                        two["a"][k].p.ztop, one["a"][k].p.ztop, scale=H)
+    for c, c2 in zip(solids(first), solids(second)):
+        ctx.check_close("%s: same density in both assemblies afterwards" % c.name, two["after"]["dens"][c2],
+                        one["after"]["dens"][c], scale=one["before"]["dens"][c])
+        ctx.check_close("%s: same mass in both assemblies afterwards" % c.name, two["after"]["mass"][c2],
+                        one["after"]["mass"][c], scale=one["before"]["mass"][c])
+
+
 # Candidate genuine defect (reported, not repaired): ExpansionData._setExpansionTarget only ever ADDS to the register of
 # target components.  Designating another target for a block on an existing ExpansionData (the public
 # determineTargetComponent(b, flag), meant for targets "determined on the fly") leaves the old target registered as well:
@@ -552,6 +671,7 @@ FLAG_OF = {"fuel": Flags.FUEL, "clad": Flags.CLAD, "duct": Flags.DUCT}
          instances={"quick": [dict(old="clad", new="fuel")],
                     "thorough": [dict(old="fuel", new="clad"), dict(old="duct", new="fuel"), dict(old="fuel", new="fuel")]})
 def redesignated_target_drives_the_block(ctx, old, new, n=2):
+    fresh_module_state()
     a, hs = build(ctx, n, (old,) * n)
     comps = solids(a)
     g = {c: ctx.real("g%d_%s" % (k, vn(c)), GLO, GHI) for k, b in enumerate(a[:-1]) for c in bsolids(b)}
@@ -670,6 +790,7 @@ def thermal_expand(changer, a, temps):
                                  dict(n=3, heights=(15.0, 60.0, 35.0, 25.0)),
                                  dict(n=2, heights=(30.0, 45.0, 40.0), struct=("noclad", "pin61"))]})
 def thermal_expansion_keeps_height_and_mass_for_any_law(ctx, n, heights, struct=None):
+    fresh_module_state()
     if ctx.mode == "sym" and ctx.pins is not None:
         # the engine's pinned differential run cannot pin the uninterpreted law (it skips the comparison anyway) but
         # would spend minutes on branch queries; the concrete self-test runs on plain numbers are unaffected
@@ -732,6 +853,7 @@ def thermal_expansion_keeps_height_and_mass_for_any_law(ctx, n, heights, struct=
                        "included), optionally one factor too few", stubs=STUBS,
          instances={"quick": [dict(short=False), dict(short=True)]})
 def non_physical_factors_are_refused(ctx, short):
+    fresh_module_state()
     a, hs = build(ctx, 2)
     comps = solids(a)
     g = [ctx.real("g%d" % i, -1.0, 2.0) for i in range(len(comps))]
@@ -765,6 +887,7 @@ def non_physical_factors_are_refused(ctx, short):
                        "detailedAxialExpansion on/off", stubs=STUBS,
          instances={"quick": [dict(n=2, detailed=True), dict(n=2, detailed=False), dict(n=3, detailed=False)]})
 def missing_dummy_block_is_refused_or_top_block_absorbs(ctx, n, detailed):
+    fresh_module_state()
     a = _build.mk_assembly(n)
     hs = []
     for k, b in enumerate(a):
